@@ -93,11 +93,11 @@ def configs(tier):
           P(fam="cap", algs=6, dns=3, laddrs=3 if total == 33 else 1, ctos=1, dnstos=2, total=total, hit=hit), 1 if q else 2)
     # --- the other transports reach the same code through their own connect/finish/send/receive -------
     if q:
-        A("tcp: canonical lists <=2, every reporting call", P("tcp", algs=7, dns=3, laddrs=7, ctos=3, dnstos=2, maxlen=2, probes=7, canon=1), 1)
+        A("tcp: canonical lists <=2, every reporting call", P("tcp", algs=7, dns=3, laddrs=3, ctos=3, dnstos=2, maxlen=2, probes=7, canon=1), 1)
     else:
-        A("tcp: canonical lists <=3, every local address kind, every reporting call",
-          P("tcp", algs=7, dns=3, laddrs=31, ctos=3, dnstos=2, maxlen=3, probes=7, canon=1), 1)
-        A("tcp: all lists <=2, D<=2", P("tcp", algs=7, dns=3, laddrs=7, ctos=3, dnstos=2, maxlen=2, probes=1), 2)
+        A("tcp: canonical lists <=3, local address none / v4:0 / v6:0, every reporting call",
+          P("tcp", algs=7, dns=3, laddrs=11, ctos=3, dnstos=2, maxlen=3, probes=7, canon=1), 1)
+        A("tcp: all lists <=2, D<=2", P("tcp", algs=7, dns=3, laddrs=3, ctos=3, dnstos=2, maxlen=2, probes=1), 2)
     for tp in ("tls", "btls", "utls"):
         if q:
             A("%s: canonical lists <=2 against XCM servers" % tp, P(tp, algs=6, dns=3, laddrs=1, ctos=1, dnstos=2, maxlen=2, canon=1), 1)
@@ -105,7 +105,7 @@ def configs(tier):
               P(tp, algs=2, dns=1, laddrs=2, ctos=1, minlen=2, maxlen=2, canon=1, probes=7), 1)
         else:
             A("%s: canonical lists <=2 against XCM servers, every reporting call" % tp,
-              P(tp, algs=7, dns=3, laddrs=7, ctos=1, dnstos=2, maxlen=2, canon=1, probes=7), 1)
+              P(tp, algs=7, dns=3, laddrs=3, ctos=1, dnstos=2, maxlen=2, canon=1, probes=7), 1)
             A("%s: canonical lists <=2, short tcp.connect_timeout, D<=2" % tp,
               P(tp, algs=6, dns=1, laddrs=1, ctos=2, maxlen=2, canon=1), 2)
     for tp in ("btcp", "tcp", "tls", "btls", "utls"):
